@@ -303,7 +303,8 @@ def main():
     cfg = props[args.prop]
     seed = int(os.environ.get("VERIF_SEED", "0") or 0)
     t0 = time.time()
-    outdir = os.path.join(VERIF, "out", args.prop)
+    OUTBASE = os.environ.get("VERIF_OUT", VERIF)
+    outdir = os.path.join(OUTBASE, "out", args.prop)
     os.makedirs(outdir, exist_ok=True)
     if args.replay:
         rp = load_json(args.replay)
@@ -347,7 +348,7 @@ def main():
                 undecided.append("unit %s: verus produced no result (rc=%s): %s" % (unit, u["res"]["rc"], u["res"]["raw"][:3]))
             cov["obligations"] += nver + nerr
             cov["discharged"] += nver
-            cov["units"].append({"unit": unit, "generated_file": os.path.relpath(u["path"], VERIF), "verified": nver, "errors": nerr, "wall_s": round(u["res"]["wall"], 2),
+            cov["units"].append({"unit": unit, "generated_file": u["path"], "verified": nver, "errors": nerr, "wall_s": round(u["res"]["wall"], 2),
                                  "functions": len(g.functions), "template_sha256": hashlib.sha256(open(os.path.join(VERIF, "units", unit + ".vspec"), "rb").read()).hexdigest()[:16]})
             for f in g.functions:
                 cov["functions_under_contract"].append({"unit": unit, "file": f["file"], "function": f["qual"], "lines": "%d-%d" % (f["line"], f["end_line"]), "body_sha256": f["body_sha256"]})
@@ -455,8 +456,8 @@ def main():
     if rc == 2:
         # proof-level evidence must not claim discharged == obligations when nothing was decided
         pass
-    os.makedirs(os.path.join(VERIF, "evidence"), exist_ok=True)
-    json.dump(evidence, open(os.path.join(VERIF, "evidence", args.prop + ".json"), "w"), indent=1)
+    os.makedirs(os.path.join(OUTBASE, "evidence"), exist_ok=True)
+    json.dump(evidence, open(os.path.join(OUTBASE, "evidence", args.prop + ".json"), "w"), indent=1)
     if rc == 0:
         print("OK property=%s tier=%s obligations=%d discharged=%d units=%s wall=%.1fs" % (args.prop, args.tier, cov["obligations"], cov["discharged"], ",".join(units), evidence["wall_s"]))
     sys.exit(rc)
